@@ -13,7 +13,7 @@ RULE = ('generated float models (1-3 signatures) and their quantized versions un
         'dequantisation, own metric, mean over samples) -- every declared common tensor exactly once, in the right group, with the right '
         'value; model vs. itself must report 0; metric axioms on random arrays incl. NaN/inf.  A unit is one (model pair, metric, '
         'signature); distinct by digest; non-trivial iff the target model contains >=1 quantized tensor')
-ASSUMPTIONS = ['dynamic-range TENSORWISE rules excluded and non-reproducible tensors skipped: the DEPTHWISE_CONV_2D kernel of KF-DWCONV-DRQ-TENSORWISE returns different values per interpreter instance', '16-bit activation recipes excluded (their interpreter aborts are C01/C13 findings)', '"tensor of the model" = tensor declared in the flatbuffer subgraph; interpreter scratch tensors are only checked for "filed at most once"',
+ASSUMPTIONS = ['dynamic-range TENSORWISE rules excluded and non-reproducible tensors skipped: the DEPTHWISE_CONV_2D kernel of KF-DWCONV-DRQ-TENSORWISE returns different values per interpreter instance', '16-bit activation recipes only on models without ADD/SUB (the int16 ADD/SUB interpreter failures are C01/C13 findings)', '"tensor of the model" = tensor declared in the flatbuffer subgraph; interpreter scratch tensors are only checked for "filed at most once"',
                'test inputs of quantized model inputs are on the quantization grid with |q| <= 127',
                'value tolerance rel 1e-4 + abs 1e-9']
 TT = models.TT
@@ -216,12 +216,16 @@ def run_case(ctx, case, rng):
     ctx.unit(common.digest([common.sha(spec.content), 'self', metric]), False)
   # --- quantized versions
   k = case % 3
+  # 16-bit activations only where the int16 ADD/SUB kernels (KF-INT16-ADDSUB-*, decided by C01/C13) cannot be involved
+  allow16 = not any(o in ('ADD', 'SUB') for o in (recipes.op_names_in(src) or []))
+  if allow16:
+    ctx.count('models_admitting_16bit_activations')
   if k == 0:
-    ship = [n for n in recipes.SHIPPED if 'a16' not in n]
+    ship = [n for n in recipes.SHIPPED if allow16 or 'a16' not in n]
     name = ship[(case // 3) % len(ship)]
     rules = recipes.SHIPPED_AS_RULES[name]
   else:
-    pool = [c for c in recipes.GOOD if not c.startswith('srq16') and c != 'drq8_tw']
+    pool = [c for c in recipes.GOOD if (allow16 or not c.startswith('srq16')) and c != 'drq8_tw']
     rules = recipes.random_rules(rng, src, safe_regex=True, cfg_pool=pool)
   run = common.pipeline(spec, datasets, rules=rules)
   if run.phase == 'no_rule_accepted' or run.exc is not None:
